@@ -268,10 +268,118 @@ func runC18Overlap(rc *RC) {
 	rc.Check("C18.c8", "stuck-after-teardown", len(stuck) == 0, "tasks still blocked after teardown: %v", stuck)
 }
 
+// runC18Reconnect: one muc.Client, two sessions one after the other (the connection is lost and the application
+// connects again): the occupant joins on the first session, the session goes away without the room's farewell having
+// been seen, and the application joins the same occupant address again on the new session. The request must go out on
+// the session the call names, and the call ends with what the room answers there.
+func runC18Reconnect(rc *RC) {
+	ch := rc.Ch
+	strat := rc.S.ConfigureStrategy()
+	client := &muc.Client{HandleInvite: func(muc.Invitation) {}, HandleUserPresence: func(stanza.Presence, muc.Item) {}}
+	room := "room0@conf.example.net/nick"
+	if ch.Chance("workload", 1, 3) {
+		room = "room0@conf.example.net"
+	}
+	firstPlan := ch.Int("workload", 3) // the join on the first session: 0 admitted, 1 refused, 2 no answer (the caller gives up)
+	lost := ch.Int("workload", 2)      // how the first session ends: 0 the peer closes the stream, 1 the connection breaks
+	rc.Describe("reconnect strategy=%s room=%s first=%d lost=%d", strat, room, firstPlan, lost)
+	rc.CaseKey = fmt.Sprint("reconnect", firstPlan, lost)
+	type sess struct {
+		e       *E2
+		serve   *simrt.Task
+		answers int
+	}
+	open := func(plan int) *sess {
+		e := rc.NewE2(E2Opts{Chunk: ch.Chance("workload", 1, 2)})
+		if e == nil {
+			return nil
+		}
+		x := &sess{e: e}
+		x.serve = e.Serve(mux.New(e.NS, muc.HandleClient(client)))
+		peer := rc.Spawn("room", func() {
+			d := xml.NewDecoder(e.Peer)
+			depth := 0
+			for {
+				tok, err := d.Token()
+				if err != nil {
+					return
+				}
+				switch t := tok.(type) {
+				case xml.StartElement:
+					depth++
+					if depth == 2 && t.Name.Local == "presence" {
+						to := (Elem{Start: t}).Attr("to")
+						switch plan {
+						case 0:
+							e.PeerWrite(fmt.Sprintf(`<presence from="%s"><x xmlns="http://jabber.org/protocol/muc#user"><item affiliation="member" role="participant"/><status code="110"/></x></presence>`, escText(to)))
+						case 1:
+							e.PeerWrite(fmt.Sprintf(`<presence from="%s" type="error"><error type="auth"><registration-required xmlns="urn:ietf:params:xml:ns:xmpp-stanzas"/></error></presence>`, escText(to)))
+						}
+						x.answers++
+					}
+				case xml.EndElement:
+					depth--
+				}
+			}
+		})
+		peer.Daemon = true
+		return x
+	}
+	a := open(firstPlan)
+	if a == nil {
+		return
+	}
+	var errA error
+	t1 := rc.Spawn("app-first", func() {
+		ctx, cancel := context.WithTimeout(a.e.Ctx, 2*time.Second)
+		_, errA = client.Join(ctx, jid.MustParse(room), a.e.Sess)
+		simrt.Settle(cancel, "h:cancel")
+	})
+	rc.S.Run(func() bool { return t1.Done() }, 200000, time.Minute)
+	// the first session goes away
+	if lost == 0 {
+		rc.Spawn("peer-close", func() { a.e.PeerWrite(a.e.CloseTag()) })
+	} else {
+		rc.Spawn("peer-break", func() { a.e.Peer.Close() })
+	}
+	rc.S.Run(func() bool { return a.e.ServeDone }, 50000, time.Minute)
+	rc.Fire("session-lost-then-rejoin")
+	// … and the application connects again
+	b := open(0)
+	if b == nil {
+		return
+	}
+	var errB error
+	t2 := rc.Spawn("app-second", func() {
+		ctx, cancel := context.WithTimeout(b.e.Ctx, 20*time.Second)
+		_, errB = client.Join(ctx, jid.MustParse(room), b.e.Sess)
+		simrt.Settle(cancel, "h:cancel")
+	})
+	st := rc.S.Run(func() bool { return t2.Done() }, 200000, time.Minute)
+	rc.Evals["C18.c1"]++
+	switch {
+	case !t2.Done():
+		rc.Failf("C18.c8", "join-on-new-session-stuck", "the join on the second session has not returned: status %v, stuck %v", st, rc.S.Stuck())
+	case errB != nil:
+		rc.Failf("C18.c3", "join-on-new-session-fails", "after the first session was lost (its join: %v) the same occupant address was joined on a new session; the room there got %d request(s) and answers each with the self-presence, but the call returned %v (first session's room saw %d)", errA, b.answers, errB, a.answers)
+	case b.answers == 0:
+		rc.Failf("C18.c1", "join-nil-without-request-on-its-session", "the join on the second session returned nil but no request had reached that session's room")
+	}
+	rc.Spawn("peer-close", func() { b.e.PeerWrite(b.e.CloseTag()) })
+	rc.S.Run(func() bool { return b.e.ServeDone }, 20000, time.Minute)
+	stuck := rc.Teardown()
+	rc.CheckPanics("C18.c8")
+	rc.Check("C18.c8", "stuck-after-teardown", len(stuck) == 0, "tasks still blocked after teardown: %v", stuck)
+}
+
 func runC18(rc *RC) {
 	ch := rc.Ch
 	if ch.Chance("workload", 1, 8) {
 		runC18Crossing(rc)
+		return
+	}
+	if ch.Chance("workload", 1, 10) {
+		runC18Reconnect(rc)
 		return
 	}
 	if ch.Chance("workload", 1, 8) {
@@ -534,7 +642,7 @@ func runC18(rc *RC) {
 		}
 	})
 	peer.Daemon = true
-	rc.Spawn("noise", func() {
+	noiseT := rc.Spawn("noise", func() {
 		for i := 0; i < nStray; i++ {
 			simrt.Sleep(time.Duration(ch.Range("workload", 0, 30)) * 10 * time.Millisecond)
 			// well-formed XML whose muc#user payload may not decode: it comes from a room that was never joined and is not ours to judge
@@ -592,7 +700,11 @@ func runC18(rc *RC) {
 	}
 	st := rc.S.Run(allDone, 200000, 5*time.Minute)
 	rc.S.PausePerm = 0
-	rc.S.Run(nil, 3000, 5*time.Second) // let late answers and noise be handled
+	// let the noise be written to the end (it waits its turn behind answers that come in pieces seconds apart) and let late
+	// answers and noise be handled: the oracle counts what was written
+	rc.S.Run(func() bool { return noiseT.Done() }, 200000, 2*time.Minute)
+	rc.S.Run(nil, 3000, 5*time.Second)
+	rc.S.Run(func() bool { return e.ServeDone || (!peerBusy && e.SUT.ReadIdle()) }, 100000, time.Minute)
 	// afterwards the rooms send an ordinary presence update for every occupant address that was used (role change, status)
 	cbBefore := len(callbacks)
 	upd := rc.Spawn("room-updates", func() {
